@@ -25,6 +25,9 @@ type ledgerCase struct {
 	// Warm puts one block with a plain transfer (wallet 3 -> sink) before the observed blocks, so that the history starts from the
 	// state of a chain that has already processed an EVM balance change (the evm module account exists), not from a virgin genesis.
 	Warm bool `json:"warm,omitempty"`
+	// WalletBalance (decimal, per wallet and per denom; "" = the world's default 2e18) funds the wallets for the magnitude dimension:
+	// a fee or value of 2^64 wei and more (18.4 native coins) must be affordable to be executed at all.
+	WalletBalance string `json:"wallet_balance,omitempty"`
 }
 
 // txObs is what one tx did, as reported by consensus.
@@ -69,6 +72,13 @@ func ledgerWorld(c ledgerCase) *world.World {
 			panic("bad base fee")
 		}
 		cfg.BaseFee = b
+	}
+	if c.WalletBalance != "" {
+		b, ok := new(big.Int).SetString(c.WalletBalance, 10)
+		if !ok || b.Sign() <= 0 {
+			panic("bad wallet balance")
+		}
+		cfg.WalletBalance = b
 	}
 	return world.New(cfg)
 }
